@@ -38,3 +38,93 @@ Theorem C16_blocked_writers_drain :
     y_wait (sy_run s (ingests (y_wait s))) = 0.
 Proof. exact blocked_writers_drain. Qed.
 Print Assumptions C16_blocked_writers_drain.
+
+(* ---------------------------------------------------------------------------
+   The FINE-GRAINED wait/notify model (Sync2.v): one step = one critical section or
+   one blocking/channel operation outside the lock of collection.go /
+   collection_merger.go / persister.go, program counters for merger, persister and
+   Close, any number of writers and notifiers (counted per program point), the ping
+   queue with its capacity, the dirty-limit wait, failing merges and failing
+   lower-level updates.  Theorems are over every schedule (every reachable state).
+   --------------------------------------------------------------------------- *)
+From Moss Require Import Sync2 Sync2Facts.
+Close Scope N_scope.
+Open Scope nat_scope.
+
+Theorem C16_fine_top_never_exceeds_cap :
+  forall c, 1 <= c_cap c -> 1 <= c_qcap c -> forall s, reachable c s -> z_top s <= c_cap c.
+Proof. exact bounded_top2. Qed.
+Print Assumptions C16_fine_top_never_exceeds_cap.
+
+(* no lost wake-up: a writer asleep on the top-space condition that no Broadcast has reached
+   really is held back by a full top of an open collection *)
+Theorem C16_fine_no_lost_wakeup :
+  forall c, 1 <= c_cap c -> 1 <= c_qcap c -> forall s,
+    reachable c s -> 0 < z_wwait s -> z_top s = c_cap c /\ z_closed s = false.
+Proof. exact no_lost_wakeup. Qed.
+Print Assumptions C16_fine_no_lost_wakeup.
+
+(* nobody blocks while holding the collection lock (F26's class of defect) *)
+Theorem C16_fine_no_block_under_lock :
+  forall c, 1 <= c_cap c -> 1 <= c_qcap c -> forall s, reachable c s -> z_lk s = false.
+Proof. exact no_block_under_lock. Qed.
+Print Assumptions C16_fine_no_block_under_lock.
+
+(* from the moment stopCh is closed every NotifyMerger in flight can return ErrClosed by a
+   step of its own, whatever everybody else is doing (F36's repair) ... *)
+Theorem C16_fine_close_releases_every_notifier :
+  forall c, 1 <= c_cap c -> 1 <= c_qcap c -> forall s, z_closed s = true -> 0 < notif_pending s ->
+    exists l s', is_stop l = true /\ step c s l = Some s' /\
+                 S (notif_pending s') = notif_pending s /\ z_nerr s' = S (z_nerr s) /\
+                 z_nans s' = z_nans s.
+Proof. exact close_releases_all. Qed.
+Print Assumptions C16_fine_close_releases_every_notifier.
+
+(* ... and a notification issued after Close returns ErrClosed as well *)
+Theorem C16_fine_notify_after_close_returns :
+  forall c, 1 <= c_cap c -> 1 <= c_qcap c -> forall s b, z_closed s = true ->
+    exists s1 s2, step c s (LNCall b) = Some s1 /\ step c s1 (LNStopSend b) = Some s2 /\
+                  notif_pending s2 = notif_pending s /\ z_nerr s2 = S (z_nerr s).
+Proof. exact notify_after_close_returns. Qed.
+Print Assumptions C16_fine_notify_after_close_returns.
+
+(* PROGRESS while open: in every state satisfying the (proved) invariant in which some call
+   has not returned, some background or in-flight step is enabled that strictly decreases a
+   natural-number measure; hence a schedule of such steps no longer than the measure after
+   which every call has returned.  Covers the persister, the dirty limits, the ping queue
+   and a failed update followed by a successful one ("as long as the lower level makes
+   progress": the schedule picks LPUpdOk). *)
+Theorem C16_fine_open_collection_always_progresses :
+  forall c, 1 <= c_cap c -> 1 <= c_qcap c -> forall s,
+    inv c s -> z_closed s = false -> pending s ->
+    exists l s', bg l = true /\ step c s l = Some s' /\ mu_o c s' < mu_o c s.
+Proof. exact open_step. Qed.
+Print Assumptions C16_fine_open_collection_always_progresses.
+
+Theorem C16_fine_open_collection_drains :
+  forall c, 1 <= c_cap c -> 1 <= c_qcap c -> forall n s,
+    inv c s -> z_closed s = false -> mu_o c s <= n ->
+    exists ls s', Forall (fun l => bg l = true) ls /\ length ls <= mu_o c s /\
+                  run c s ls = Some s' /\ ~ pending s' /\ z_closed s' = false /\ inv c s'.
+Proof. exact open_drain. Qed.
+Print Assumptions C16_fine_open_collection_drains.
+
+(* Close drain, PARTIAL: proved while the merger has not yet exited; the persister's and the
+   closer's last (straight-line) steps after the merger is gone are not covered.  Full
+   statement:  inv s -> z_closed s = true -> 0 < mu_c s -> exists l s', bg l = true /\
+   step c s l = Some s' /\ mu_c s' < mu_c s. *)
+Theorem C16_fine_close_progresses_partial :
+  forall c, 1 <= c_cap c -> 1 <= c_qcap c -> forall s,
+    inv c s -> z_closed s = true -> z_mp s <> MDone ->
+    exists l s', bg l = true /\ step c s l = Some s' /\ mu_c s' < mu_c s.
+Proof. exact close_step_partial. Qed.
+Print Assumptions C16_fine_close_progresses_partial.
+
+(* F36 (repaired, 7ee2acf): with the pinned NotifyMerger (no stop case: Mut6) a synchronous
+   notification issued after Close waits for ever in every continuation *)
+Theorem C16_refuted_pre_fix_notify_after_close_F36 :
+  exists s, reachable_gen Mut6 cfg_noll s /\ z_cp s = CRet /\ z_mp s = MDone /\ z_pp s = PDone /\
+    waitpong s = 1 /\
+    (forall ls s', run_gen Mut6 cfg_noll s ls = Some s' -> 1 <= waitpong s' /\ z_nans s' = z_nans s).
+Proof. exact close_releases_all_mut6_refuted. Qed.
+Print Assumptions C16_refuted_pre_fix_notify_after_close_F36.
